@@ -204,6 +204,10 @@ func TestC07(t *testing.T) {
 			if sp := v.App.BankKeeper.SpendableCoins(v.Ctx, from); !sp.IsEqual(spendable) {
 				t.Fatalf("sender's spendable balance changed %s -> %s by a split of %s\nhistory: %s", spendable, sp, want, jsonStr(hist))
 			}
+			if ps := v.CVA(from); ps == nil || !ps.DelegatedFree.IsEqual(preCopy.DelegatedFree) || !ps.DelegatedVesting.IsEqual(preCopy.DelegatedVesting) {
+				t.Fatalf("the split changed the sender's delegation bookkeeping: delegated vesting %s -> %s, delegated free %s -> %s\nhistory: %s",
+					preCopy.DelegatedVesting, ps.DelegatedVesting, preCopy.DelegatedFree, ps.DelegatedFree, jsonStr(hist))
+			}
 			rc := v.CVA(to)
 			if rc == nil {
 				t.Fatalf("recipient is not a continuous vesting account")
